@@ -203,7 +203,7 @@ def judge_independent(obs, a, b, A, B):
     ok_t = all(type(getattr(A, k)) is int for k in ('ixmin', 'ixmax', 'iymin', 'iymax'))
     obs.check(ok_t, 'corner-not-a-python-int', f'box {a} stores corners of types {[type(getattr(A, k)).__name__ for k in ("ixmin", "ixmax", "iymin", "iymax")]}', 'independent')
     ny, nx = max(a[3], 1) + 2, max(a[1], 1) + 2
-    if 0 < ny * nx < 10 ** 6:
+    if 0 < ny * nx < 10 ** 6 and 0 < A.shape[0] * A.shape[1] < 10 ** 6:
         sl, ss = A.get_overlap_slices((ny, nx))
         if sl is not None:
             img = np.zeros((ny, nx))
